@@ -20,7 +20,7 @@ impl Property for C05 {
     }
 
     fn cases(tier: Tier) -> u32 {
-        tier.pick(20_000, 400_000)
+        tier.pick(20_000, 2_000_000)
     }
 
     fn run(case: &HCase, ctx: &mut Ctx) {
